@@ -211,6 +211,12 @@ func RunWorker(o *WorkerOpts) *WorkerStats {
 	if o.MaxViol == 0 {
 		o.MaxViol = 2
 	}
+	if e := os.Getenv("VERIF_MAXVIOL"); e != "" {
+		// development aid (detection-rate experiments): keep searching after a violation, do not minimise
+		if n, err := strconv.Atoi(e); err == nil && n > 0 {
+			o.MaxViol, o.MinimizeS = n, 0.001
+		}
+	}
 	if e := os.Getenv("VERIF_ENGINE"); e != "" {
 		// development aid: run only the n-th engine of the property
 		if i, err := strconv.Atoi(e); err == nil && i >= 0 && i < len(spec.Engines) {
